@@ -232,7 +232,15 @@ class EncodeState:
                 odxraise(f"Illegal bit length for a float64 object ({bit_length})")
                 bit_length = 64
 
-            raw_value = float(internal_value)
+            try:
+                raw_value = float(internal_value)
+                if base_data_type == DataType.A_FLOAT32 and raw_value not in (
+                        float("inf"), float("-inf")) and abs(raw_value) > 3.4028235677973366e+38:
+                    raise OverflowError("value too large for a 32 bit floating point number")
+            except (OverflowError, TypeError, ValueError) as e:
+                odxraise(f"The value '{internal_value!r}' cannot be encoded as "
+                         f"{base_data_type.value}: {e}", EncodeError)
+                raw_value = 0.0
 
         # If the bit length is zero, encode an empty value
         if bit_length == 0:
